@@ -400,7 +400,7 @@ Definition ins_step (attrs : list attr) (ms : list mv) (subst : list (N * N)) (a
   : res (list attr) :=
   let len := blen data in
   match ranges_for_ins ms ins_idx with
-  | _ :: _ as rs => Ok (gaps author ts new_pos len 0 (merged_targets rs))
+  | (_ :: _) as rs => Ok (gaps author ts new_pos len 0 (merged_targets rs))
   | [] =>
     let cur := mkAttr new_pos (new_pos + len) author ts in
     let with_author (o : option attr) :=
